@@ -157,7 +157,7 @@ rp_write(rp *p, const void *buf, size_t len)
 	const uint8_t *b     = buf;
 	int            stall = 0;
 	while (len > 0) {
-		ssize_t n = send(p->fd, b, len, MSG_NOSIGNAL);
+		ssize_t n = sendto(p->fd, b, len, MSG_NOSIGNAL, NULL, 0); // (sendto: the harness must not go through the wrapped send())
 		p->wr_calls++;
 		if (n > 0) {
 			b += n;
